@@ -177,8 +177,13 @@ def run(rep, facts):
                     continue
                 n_w += 1
                 v = ir.peel(r.operand(f[fld], (bi, si)))
+                def via_decode_helper(e):
+                    # the same field of the header decoded by a helper introduced later (it wraps RecordHeader::from_bytes)
+                    return any(y[0] == 'call' and facts.is_new_helper(y[1]) and any(
+                        dispatch.FROM_BYTES in dispatch.effective_calls(facts, hb) for hb in facts.by_npath.get(y[1], [])) for y in ir.walk(e))
                 okv = cv(v) == 0 or dispatch.wire_field(v) == wirename or (v[0] == 'param' and v[2] == fld) \
-                    or (v[0] == 'field' and str(v[2]) == wirename and ir.peel(v[1])[0] == 'param')
+                    or (v[0] == 'field' and str(v[2]) == wirename and ir.peel(v[1])[0] == 'param') \
+                    or (v[0] == 'field' and str(v[2]) == wirename and via_decode_helper(v[1]))
                 if not okv:
                     bad.append((b.npath, fld, ir.show(v)[:70], "%s:%d" % (st["sp"]["f"], st["sp"]["l"])))
     if bad:
